@@ -49,6 +49,7 @@ def handle (j : Json) : Json :=
   match getStr j "op" with
   | "mono" => Json.mkObj [("data", encVal (Mono.mono (decCase j)))]
   | "merge" => runMerge j
+  | "intro" => runIntro j
   | "cache" =>
     -- plans are identified by the text they were planned from
     let plannable : List (String × Bool) := match getObj? j "plannable" with | some o => (kvs o).map fun (k, v) => (k, v.getBool?.toOption.getD false) | none => []
